@@ -162,3 +162,216 @@ def replay(ctx, payload):
         return 1 if bad else 0
     print("no CLI replay for kind", kind)
     return 0
+
+
+# ----------------------------------------------------------------------------- C02 / C11 CLI checks
+
+def rand_genome(rnd, n):
+    return "".join(rnd.choice("ACGT") for _ in range(n))
+
+
+def mutate(rnd, s, nsnp):
+    s = list(s)
+    for _ in range(nsnp):
+        p = rnd.randrange(len(s))
+        s[p] = rnd.choice([c for c in "ACGT" if c != s[p]])
+    return "".join(s)
+
+
+def revcomp(s):
+    return s[::-1].translate(str.maketrans("ACGTacgt", "TGCAtgca"))
+
+
+def nk_table(info):
+    """(names, {key: cells}) of an nk --full-info parse"""
+    return info.get("names"), {k: "".join(v) for k, v in info["rows"].items()}
+
+
+def c02_cli(ctx, broken):
+    """wrapping, gzip, case, record order, strand and sample order through the CLI"""
+    rnd = random.Random(ctx.seed * 104729 + 5)
+    n = 40 if ctx.tier == "thorough" else 8
+    if broken:
+        n *= 3
+    evals = nontriv = 0
+    samples = []
+    for it in range(n):
+        k = rnd.choice([7, 15, 17, 31, 33, 63])
+        rc = rnd.random() < 0.7
+        nsamp = rnd.randint(1, 3)
+        base = rand_genome(rnd, rnd.randint(k + 5, 6 * k))
+        per_sample = []
+        for si in range(nsamp):
+            recs = [mutate(rnd, base, rnd.randint(0, 3))]
+            if rnd.random() < 0.5:
+                recs.append(rand_genome(rnd, rnd.randint(1, 3 * k)))
+            if rnd.random() < 0.3:
+                p = rnd.randrange(len(recs[0]))
+                recs[0] = recs[0][:p] + "N" * rnd.randint(1, 3) + recs[0][p + 1:]
+            per_sample.append(recs)
+        d = fresh_dir(ctx, "c02cli")
+        files = []
+        for si, recs in enumerate(per_sample):
+            f = os.path.join(d, f"s{si}.fa")
+            write_fasta(f, recs)
+            files.append(f)
+        ref = build_and_nk(ctx, d, k, rc, files)
+        evals += 1
+        if ref["status"] != "ok":
+            return {"summary": {"evaluations": evals, "nontrivial": nontriv},
+                    "violation": {"kind": "c02-transform", "what": "plain build failed", "detail": ref.get("stderr"), "k": k, "rc": rc, "samples": per_sample}}
+        names0, table0 = nk_table(ref)
+        # model agreement for sample 0 (ties the CLI glue to the model once more)
+        _, m, s = model_dict(ctx, k, rc, per_sample[0])
+        want0 = dict_of(s)
+        got0 = {key: cells[0] for key, cells in table0.items() if cells[0] != "-"}
+        if got0 != want0:
+            return {"summary": {"evaluations": evals, "nontrivial": nontriv},
+                    "violation": {"kind": "c02-transform", "what": "column 0 differs from the specification dictionary", "k": k, "rc": rc, "samples": per_sample}}
+        nontriv += 1
+        # transformed inputs
+        d2 = fresh_dir(ctx, "c02cli2")
+        files2 = []
+        how = []
+        for si, recs in enumerate(per_sample):
+            recs2 = list(recs)
+            rnd.shuffle(recs2)
+            recs2 = ["".join(ch.lower() if rnd.random() < 0.4 else ch for ch in r) for r in recs2]
+            if rc:
+                recs2 = [revcomp(r) if rnd.random() < 0.5 else r for r in recs2]
+            gz = rnd.random() < 0.5
+            wrap = rnd.choice([None, 1, 7, 60, 10 ** 6])
+            f = os.path.join(d2, f"s{si}.fa" + (".gz" if gz else ""))
+            write_fasta(f, recs2, wrap=wrap, gz=gz)
+            files2.append(f)
+            how.append({"gz": gz, "wrap": wrap})
+        order = list(range(nsamp))
+        rnd.shuffle(order)
+        alt = build_and_nk(ctx, d2, k, rc, [files2[i] for i in order])
+        evals += 1
+        if alt["status"] != "ok":
+            return {"summary": {"evaluations": evals, "nontrivial": nontriv},
+                    "violation": {"kind": "c02-transform", "what": "transformed build failed", "detail": alt.get("stderr"), "how": how, "k": k, "rc": rc, "samples": per_sample}}
+        names1, table1 = nk_table(alt)
+        # names: sN.fa.gz is not stripped by the name regex (only .fa/.fasta/.fastq/.fastq.gz) -> compare columns by position
+        permuted = {key: "".join(cells[order.index(i)] for i in range(nsamp)) for key, cells in table1.items()}
+        if permuted != table0:
+            return {"summary": {"evaluations": evals, "nontrivial": nontriv},
+                    "violation": {"kind": "c02-transform", "what": "table changed under wrap/gzip/case/order/strand/sample permutation", "how": how, "order": order, "k": k, "rc": rc, "samples": per_sample}}
+        if len(samples) < 2:
+            samples.append({"k": k, "rc": rc, "transform": how, "sample_order": order, "kmers": len(table0)})
+    return {"summary": {"evaluations": evals, "nontrivial": nontriv,
+                        "what": "ska build on re-wrapped / gzip-compressed / case-masked / record-permuted / per-record reverse-complemented files with permuted sample order vs the plain build (nk --full-info tables)"},
+            "samples": samples}
+
+
+def run_ok(args, cwd):
+    code, out, err = ska(args, cwd)
+    return code, out, err
+
+
+def c11_cli(ctx, broken):
+    """thread-count / repetition matrix through the CLI"""
+    rnd = random.Random(ctx.seed * 15485863 + 3)
+    thorough = ctx.tier == "thorough"
+    threads_set = [1, 2, 3, 4, 8, 16] if thorough else [1, 2, 4]
+    reps = 3 if thorough else 2
+    sample_counts = [3, 9, 10, 11, 25, 40] if thorough else [3, 11, 21]
+    evals = nontriv = 0
+    samples = []
+    known_sigs = {k["sig"]: k["text"] for k in core.load_known() if k["property"] == "C11"}
+
+    def viol(what, **kw):
+        kw.update({"kind": "c11-threads", "what": what})
+        return {"summary": {"evaluations": evals, "nontrivial": nontriv}, "violation": kw}
+
+    known_hits = []
+    for fam, nsamp in [(f, n) for n in sample_counts for f in ("random", "isolated")]:
+        k = rnd.choice([15, 17, 31, 33])
+        d = fresh_dir(ctx, "c11cli")
+        L = 400 if fam == "random" else 700
+        base = rand_genome(rnd, L)
+        if fam == "random":
+            sites = sorted(rnd.sample(range(L), rnd.randint(3, 12)))
+        else:
+            sites = list(range(2 * k + 3, L - 2 * k - 3, 2 * k + 5))
+        seqs = [list(base) for _ in range(nsamp)]
+        for p in sites:
+            alt = rnd.choice([c for c in "ACGT" if c != base[p]])
+            for c in rnd.sample(range(nsamp), rnd.randint(1, nsamp - 1)):
+                seqs[c][p] = alt
+        close = any(b - a < 2 * k for a, b in zip(sites, sites[1:]))
+        files = []
+        for si in range(nsamp):
+            f = os.path.join(d, f"s{si}.fa")
+            write_fasta(f, ["".join(seqs[si])])
+            files.append(f)
+        reffile = os.path.join(d, "ref.fa")
+        write_fasta(reffile, [base[:L // 2], base[L // 2:]], names=["c1", "c2"])
+        loref = os.path.join(d, "loref.fa")   # ska lo wants a single-sequence reference
+        write_fasta(loref, [base], names=["g"])
+        base_out = {}
+        for t in threads_set:
+            for rep in range(reps):
+                tag = f"t{t}r{rep}"
+                # build from sequence files
+                code, out, err = run_ok(["build", "-o", os.path.join(d, tag), "-k", str(k), "--threads", str(t)] + files, d)
+                evals += 1
+                if code != 0:
+                    return viol("build failed with this thread count", threads=t, nsamples=nsamp, stderr=err[-400:])
+                code, out, err = run_ok(["nk", "--full-info", os.path.join(d, tag + ".skf")], d)
+                cur = {"build": nk_table(parse_nk(out))}
+                skf = os.path.join(d, tag + ".skf")
+                for name, args in [
+                    ("align_skf", ["align", skf, "--threads", str(t)]),
+                    ("align_fa", ["align"] + files + ["--threads", str(t)]),
+                    ("map_skf", ["map", reffile, skf, "--threads", str(t)]),
+                    ("map_fa", ["map", reffile] + files + ["--threads", str(t)]),
+                    ("mapvcf_skf", ["map", reffile, skf, "-f", "vcf", "--threads", str(t)]),
+                    ("distance", ["distance", skf, "--threads", str(t)]),
+                ]:
+                    if name in ("map_fa", "align_fa") and len(files) == 1:
+                        continue
+                    code, out, err = run_ok(args, d)
+                    evals += 1
+                    if code != 0:
+                        return viol(f"{name} failed with this thread count", threads=t, nsamples=nsamp, stderr=err[-400:], args=args)
+                    if name.startswith("align"):
+                        aseqs = [l for l in out.splitlines() if not l.startswith(">")]
+                        names = [l for l in out.splitlines() if l.startswith(">")]
+                        cols = sorted("".join(s[i] for s in aseqs) for i in range(len(aseqs[0]))) if aseqs and aseqs[0] else []
+                        cur[name] = (names, cols)
+                    elif name == "mapvcf_skf":
+                        cur[name] = [l for l in out.splitlines() if not l.startswith("##")]
+                    else:
+                        cur[name] = out
+                # ska lo with a reference: identical outputs
+                lo_prefix = os.path.join(d, "lo_" + tag)
+                code, out, err = run_ok(["lo", skf, lo_prefix, "-r", loref, "--threads", str(t)], d)
+                evals += 1
+                if code != 0:
+                    return viol("lo -r failed with this thread count", threads=t, nsamples=nsamp, stderr=err[-400:], k=k,
+                                family=fam, sites=sites, genome=base, samples=["".join(x) for x in seqs])
+                lo = {}
+                for suffix in ["_snps.fas", "_snps.vcf", "_indels.vcf", "_pseudo_genomes.fas"]:
+                    p = lo_prefix + suffix
+                    lo[suffix] = open(p).read() if os.path.exists(p) else None
+                cur["lo_ref"] = lo
+                if not base_out:
+                    base_out = cur
+                    nontriv += 1
+                else:
+                    for key in cur:
+                        if cur[key] != base_out[key]:
+                            if key == "lo_ref" and "lo-ref-nondeterministic" in known_sigs:
+                                # recorded finding: the output of ska lo -r depends on hash-map iteration order
+                                known_hits.append("lo-ref-nondeterministic: " + known_sigs["lo-ref-nondeterministic"][:160])
+                                continue
+                            return viol(f"{key} differs from the single-threaded first run", threads=t, rep=rep, nsamples=nsamp, k=k,
+                                        family=fam, sites=sites, genome=base, samples=["".join(x) for x in seqs])
+        if len(samples) < 2:
+            samples.append({"family": fam, "nsamples": nsamp, "k": k, "threads": threads_set, "reps": reps, "kmers": len(base_out["build"][1])})
+    return {"known": sorted(set(known_hits)),
+            "summary": {"evaluations": evals, "nontrivial": nontriv, "known_finding_hits": len(known_hits), "matrix": {"threads": threads_set, "reps": reps, "sample_counts": sample_counts},
+                        "what": "build/align/map(aln,vcf)/distance/lo -r with skf and sequence-file input; identical output (tables and align columns up to order) vs the first single-threaded run; every command must succeed for every thread count"},
+            "samples": samples}
